@@ -143,4 +143,15 @@ TEXTS = {
         'note': ('Rejection of conflicting shared constants is a genuine defect w.r.t. this property (known findings F17, '
                  'F18, keyed by cause so that any other rejection is still reported). Axioms: none.'),
     },
+    'C19': {
+        'level': ('Theorems (all models, instructions, states): a performer step addressed to subgraph s changes no other '
+                  'subgraph, none of their op-id maps and none of their signatures; the shared opcode table only grows so '
+                  'indices already in use keep their meaning; with model-wide unique names the global name-keyed '
+                  'tensor-info map returns, for every tensor, the producer/consumers computed from its OWN subgraph (and a '
+                  'counterexample shows the uniqueness contract is needed). End-to-end oracle: subgraph i of '
+                  'quantize(M) equals subgraph 0 of quantize(extract_i(M)) structurally and by constant content, on '
+                  'generated multi-signature models; correspondences P and I/T/E run on the same multi-subgraph models.'),
+        'note': ('Plan-generation locality is validated (correspondence P + oracle), not proved. Shared buffers: C15. '
+                 'Axioms: none.'),
+    },
 }
